@@ -3,6 +3,7 @@ package main
 // C13 — merging and charting count every stored report exactly once (structural part).
 
 import (
+	"os"
 	"fmt"
 	"go/token"
 	"go/types"
@@ -378,7 +379,53 @@ func c13Chart(c *Ctx, gd *Module) {
 	r.Check("C13.every-report-counted", "handleChart/every report is both grouped and counted", gd.Pos(h.Pos()), toReports && toXs && len(appends) == 2, fmt.Sprintf("appends: %d (reports:%v ids:%v)", len(appends), toReports, toXs))
 	// same inner loop for both
 	if len(appends) == 2 {
-		r.Check("C13.every-report-counted", "handleChart/both lists grow in the same iteration", gd.Pos(appends[0].Pos()), appends[0].Block() == appends[1].Block(), "one loop body appends to reports and xs")
+		same := appends[0].Block() == appends[1].Block()
+		if !same {
+			// … or the day's reports are appended as a whole (append(reports, daily...)) and the
+			// ids are collected by an unconditional loop over the same daily slice
+			for k := 0; k < 2; k++ {
+				whole, other := appends[k], appends[1-k]
+				if len(whole.Call.Args) != 2 {
+					continue
+				}
+				daily := strip(whole.Call.Args[1])
+				if _, isSlice := daily.Type().Underlying().(*types.Slice); !isSlice || !strings.Contains(describe(daily), "readMergedReports(") {
+					continue
+				}
+				if _, el, ok := appendedElems(other); ok && len(el) == 1 {
+					d := describe(el[0])
+					overDaily := strings.HasSuffix(d, ".X") && strings.Contains(d, describe(daily))
+					if !overDaily && strings.HasSuffix(d, ".X") {
+						// for _, r := range daily { … r.X … }: r is a local copy of daily[i]
+						if b, _, ok := fieldLoad(el[0]); ok {
+							if a, isA := strip(b).(*ssa.Alloc); isA {
+								for _, u := range referrers(a) {
+									if st, isSt := u.(*ssa.Store); isSt && st.Addr == ssa.Value(a) && strings.Contains(describe(st.Val), describe(daily)) {
+										overDaily = true
+									}
+								}
+							}
+						}
+					}
+					uncond := true
+					for _, f := range factsAt(other) {
+						if !isLoopMechanics(f) && !hasFact(factsAt(whole), func(g Fact) bool { return g == f }) {
+							uncond = false
+						}
+					}
+					if os.Getenv("VERIF_DEBUG_C13") != "" {
+						fmt.Printf("C13DBG daily=%s elem=%s overDaily=%v uncond=%v\n", describe(daily), d, overDaily, uncond)
+						for _, f := range factsAt(other) {
+							fmt.Printf("   fact %v %s mech=%v\n", f.Pol, shortDesc(describe(f.Cond)), isLoopMechanics(f))
+						}
+					}
+					if overDaily && uncond {
+						same = true
+					}
+				}
+			}
+		}
+		r.Check("C13.every-report-counted", "handleChart/both lists grow in the same iteration", gd.Pos(appends[0].Pos()), same, "one loop body appends to reports and xs (or the day's reports are appended whole and every one of them contributes its X)")
 	}
 	// charts(): NumReports = len(xs)
 	ch := gd.Func("cmd/worker", "charts")
